@@ -622,6 +622,31 @@ def decide(pid, tier, seed, replay, t0):
         info["copy_cases"] = n_cp
     except Exception as e:      # noqa
         info["copy_cases"] = "error %r" % e
+    # ---- execution context: the same operations run in a fresh worker thread (not the thread that imported the
+    # library) must give the same answers — state that lives per thread is right in one thread only
+    try:
+        rng5 = random.Random(seed + 211)
+        cand = [i for i in range(len(lines)) if len(lines[i]) < 20000]
+        pick = rng5.sample(cand, min(len(cand), 120 if tier == "quick" else 1500))
+        pick = sorted(within_budget(pick, 4.0 if tier == "quick" else 200.0))
+        n_th = 0
+        for i in pick:
+            o2 = impl.run_thread(lines[i])
+            n_th += 1
+            if o2 != impl_out[i] and o2.startswith("ok") and impl.run(lines[i]) == impl_out[i]:
+                try:
+                    msg = mod.oracle(full_lines[i], o2)
+                except Exception:
+                    msg = None
+                if msg and not mod.known_match(full_lines[i], o2, msg, known):
+                    failures.append((full_lines[i], "when the call is made from a worker thread: " + msg))
+                    if len(failures) > 20:
+                        break
+                else:
+                    info["worker_thread_differences"] = info.get("worker_thread_differences", 0) + 1
+        info["worker_thread_cases"] = n_th
+    except Exception as e:      # noqa
+        info["worker_thread_cases"] = "error %r" % e
     # ---- something broke: search harder for a concrete failing input
     searched = 0
     probed = 0
@@ -663,6 +688,8 @@ def decide(pid, tier, seed, replay, t0):
         "optimized_interpreter_cases": info.get("optimized_interpreter_cases", 0),
         "alternative_form_cases": info.get("alternative_form_cases", 0),
         "copy_cases": info.get("copy_cases", 0), "copy_differences": info.get("copy_differences", 0),
+        "worker_thread_cases": info.get("worker_thread_cases", 0),
+        "worker_thread_differences": info.get("worker_thread_differences", 0),
         "optimized_interpreter_differences": info.get("optimized_interpreter_differences", 0),
         "alternative_form_differences": info.get("alternative_form_differences", 0),
     }
